@@ -285,6 +285,7 @@ def run(ctx):
     check_catalog_merge(ctx, prog)
     check_quoted_values(ctx, prog)
     check_construction_absorptance(ctx, prog)
+    check_tbl_counts(ctx, prog)
     # ---------------- D4
     from ..spec.bdl_schema import ROWS
     now = attr_rows(prog)
@@ -631,6 +632,44 @@ def check_construction_absorptance(ctx, prog, rule="c18.typed"):
                       "taken when the construction is named like its LAYERS): the table entry keeps the default 0.6", fn.loc(info["line"]))
     else:
         ctx.ok(rule, key, "every path through the loop over the CONSTRUCTION blocks stores the construction's ABSORPTANCE in the table entry", fn.loc(info["line"]))
+
+
+def check_tbl_counts(ctx, prog, rule="c18.tbl"):
+    """"The same holds for ... NewBDL_O.tbl": the third line gives the number of element records and of zone records.  Each record loop must test its count
+    before it reads a record: a loop that reads first and compares afterwards reads one record for a count of 0 (`0 1`: the zone is parsed as an element and
+    the file is rejected; with the count never reached, every remaining line is taken).  The comparison with the count has to dominate the call that parses
+    the record."""
+    from ..loops import classify_loops
+    fn = prog.find("hulc::tbl::parse")
+    sc = Scope(prog, fn)
+    body = fn.body
+    n = 0
+    for info in classify_loops(prog, fn):
+        blocks = set(info["blocks"])
+        parses = [b for b in blocks for t in [body.blocks[b]["term"]] if t["t"] == "call" and short_callee(callee_name(t) or "") == "parse"]
+        if not parses:
+            continue
+        cmps = []
+        for b in blocks:
+            t = body.blocks[b]["term"]
+            if t["t"] != "switch":
+                continue
+            d = strip(sc.operand(t["d"]))
+            # the running count (a local updated in the loop) against the count read from the header (anything that is not a constant)
+            if d[0] == "bin" and d[1] in ("Eq", "Ne", "Lt", "Le", "Gt", "Ge") and \
+                    any(strip(x)[0] == "var" and strip(y)[0] != "k" for x, y in ((d[2], d[3]), (d[3], d[2]))):
+                cmps.append((b, d))
+        n += 1
+        what = "records read by the loop at line %s" % info["line"]
+        key = "%s|count-tested-first|%d" % (rule, n)
+        if not cmps:
+            raise AnalysisError("tbl::parse: the loop at line %s parses records but compares nothing with the counts of the header: not a shape this rule reads" % info["line"])
+        if any(all(body.dominates(cb, pb) for pb in parses) for cb, _ in cmps):
+            ctx.ok(rule, key, "the count of the header is tested before a record is parsed (a count of 0 reads nothing)", fn.loc(info["line"]))
+        else:
+            ctx.violation(rule, key, "the loop parses a record and only then compares the number read with the header's count (%s): for a count of 0 it still takes a record "
+                          "(`0 1`: the zone is read as an element and the file rejected) and then never stops at the count" % show(cmps[0][1])[:60], fn.loc(info["line"]))
+    ctx.floor(rule, "record loops of tbl::parse", n, 2)
 
 
 def check_parents(ctx, prog, fn, variants, spec, rule="c18.parent"):
